@@ -76,6 +76,24 @@ def _run_case(arg):
     g = out2 - (f * q)
     if float(g.max() - g.min()) > TOL:
         return ("unwrapped-unchanged", f"spread {float(g.max() - g.min()):.4f} rad")
+    # (d) the bright-field wrapper (masked embedding, one or two passes) obeys the same law with the caller's settings
+    if variant % 3 == 0 and bool(m.any()):
+        from quantem.diffractive_imaging.direct_ptycho_utils import unwrap_bf_overlap_phase_torch
+        bf = torch.ones((h, w), dtype=torch.bool)
+        cd = torch.polar(torch.ones(h * w, dtype=torch.float32), phi.to(torch.float32).reshape(-1))
+        for two_pass in (True, False):
+            try:
+                res = unwrap_bf_overlap_phase_torch(cd, m.reshape(-1), bf, two_pass=two_pass,
+                                                    wrap_around=bool(case["wrap"])).to(torch.float64).reshape(h, w)
+            except Exception as ex:  # noqa: BLE001
+                return ("wrapper-raised", f"{type(ex).__name__}: {ex}")
+            dd = res - f * q
+            for c in set(comp[m].tolist()):
+                sel = (comp == c) & m
+                v = dd[sel]
+                if float(v.max() - v.min()) > max(TOL, 1e-4):
+                    return ("wrapper-component-constant", f"unwrap_bf_overlap_phase_torch(two_pass={two_pass}): component {c}: "
+                                                          f"spread {float(v.max() - v.min()):.4f} rad")
     return None
 
 
